@@ -1,7 +1,7 @@
-(* C17 — all nodes (no repetition), and the run of a whole translated program from the initial VM state. *)
+(* C17 — all nodes, and the run of a whole translated program from the initial VM state. *)
 From Coq Require Import ZArith QArith List Bool Lia ZifyBool Setoid.
 Require Import QV.C17.Model QV.C17.Spec QV.C17.Proofs QV.C17.ProofsVM QV.C17.SimDefs QV.C17.ProofsTr1 QV.C17.ProofsTr2
-               QV.C17.ProofsSim1 QV.C17.ProofsSim2 QV.C17.ProofsSim3 QV.C17.ProofsSim4 QV.C17.ProofsSim5.
+               QV.C17.ProofsSim1 QV.C17.ProofsSim2 QV.C17.ProofsSim3 QV.C17.ProofsSim4 QV.C17.ProofsSim5 QV.C17.ProofsSim5b.
 Import ListNotations.
 Local Open Scope Z_scope.
 
@@ -9,16 +9,17 @@ Section sim.
   Variable Fs : list (nat * list Q).
   Hypothesis Fs_inj : keys_inj_b Fs = true.
   Variable C : nat.
+  Variable reps : bool.
 
-  Lemma sim_node : forall n, node_stmt Fs C n.
+  Lemma sim_node : forall n, node_stmt Fs C reps n.
   Proof.
     induction n as [vs dur|body c IHb|body len IHb] using node_ind2.
     - apply sim_hold; auto.
-    - intros d Hok. cbn in Hok. discriminate.
+    - apply sim_rep; auto. apply sim_list; auto.
     - apply sim_iter; auto. apply sim_list; auto.
   Qed.
 
-  Lemma sim_prog : forall B, list_stmt Fs C B.
+  Lemma sim_prog : forall B, list_stmt Fs C reps B.
   Proof. intros B. apply sim_list; auto. apply Forall_forall. intros; apply sim_node. Qed.
 End sim.
 
@@ -26,14 +27,15 @@ Lemma repeat_length' {A} : forall (x : A) n, length (repeat x n) = n.
 Proof. intros; apply repeat_length. Qed.
 
 (* the run of a whole program *)
-Theorem translated_program_plays : forall C prog cs fuel h t,
-  prog_ok false C prog = true ->
+Theorem translated_program_plays : forall reps C prog cs fuel h t,
+  prog_ok reps C prog = true -> (reps = true -> rep_stable prog = true) ->
   translate prog = Ok cs -> run_vm_n fuel C cs = Ok (h, t) ->
   Forall2 hrel h (fst (nplay_list prog [] 0%Q)) /\ t = snd (nplay_list prog [] 0%Q).
 Proof.
-  intros C prog cs fuel h t Hok HT HR. unfold prog_ok in Hok. apply andb_prop in Hok as [Hok Hinj].
+  intros reps C prog cs fuel h t Hok Hstab HT HR. unfold prog_ok in Hok. apply andb_prop in Hok as [Hok Hinj].
   unfold translate in HT. destruct (tr_nodes prog t0) as [[cs0 st']|] eqn:E; cbn in HT; [|discriminate]. inversion HT; subst cs0; clear HT.
-  destruct (sim_prog (prog_factors prog) Hinj C prog 0%nat Hok (incl_refl _) t0 cs st' [] cs [] [] (vm0 C) E) as
+  assert (HS : reps = true -> t_stable st' = true) by (intros e; specialize (Hstab e); unfold rep_stable in Hstab; rewrite E in Hstab; exact Hstab).
+  destruct (sim_prog (prog_factors prog) Hinj C reps prog 0%nat Hok (incl_refl _) t0 cs st' [] cs [] [] (vm0 C) E HS) as
     (s' & R & Pc & _ & _ & _ & _ & _ & (hn & Hh & Hr) & Tm & _); auto.
   - constructor.
   - now rewrite app_nil_r.
